@@ -327,6 +327,12 @@ func (h *hist) store(o *Obj) {
 		if v.Nonce <= 1 {
 			v.Nonce = 2
 		}
+		// keep clear of 2^64: InitGenesis takes the largest stored nonce as "latest", and the end blocker's next
+		// request would wrap to nonce 0 / 1 and overwrite confirmed sets - a state only this generator can produce
+		// (values >= 2^63 stay covered)
+		if v.Nonce > ^uint64(0)-(1<<32) {
+			v.Nonce -= 1 << 32
+		}
 		for k.GetOracleSet(ctx, v.Nonce) != nil {
 			v.Nonce++
 			h.log = append(h.log, "store: oracle-set nonce taken, next one used")
@@ -892,7 +898,7 @@ func (h *hist) checkAttribution(rep *lib.Report, s *snap, verify bool, where str
 		}
 		if !good {
 			rep.Fail(lib.Failure{Kind: "monitor", Sig: "C12/stored-confirm-bad-signature/" + where, Replay: replay,
-				What: fmt.Sprintf("%s: the %s confirm stored under oracle %s does not carry that oracle's signature over the stored object", where, kindName[c.kind], c.oracle)})
+				What: fmt.Sprintf("%s: the %s confirm (nonce %d) stored under oracle %s does not carry that oracle's signature over the stored object", where, kindName[c.kind], c.nonce, c.oracle)})
 		}
 	}
 }
